@@ -1,4 +1,5 @@
 import Fabio.Basic
+import Fabio.Model.Parse
 /-!
 Model for property C01 — "Routing table holds exactly the healthy, tagged service instances".
 
@@ -101,7 +102,13 @@ instance (cs : List Check) (st : List Str) (strict : Bool) (node id : Str) :
 def isNodeOrMaint (c : Check) : Bool :=
   c.checkID == serf || c.checkID == nodeMaint || svcMaintNoColon.isPrefixOf c.checkID
 
-def hasTagPrefix (pfx : Str) (c : Check) : Bool := c.tags.any (fun t => pfx.isPrefixOf t)
+/-- one of the check's service tags, after `strings.TrimSpace` (as `routecmd.build` reads a tag), has the prefix.
+Before the repair of D27 the tag was tested as it stands: an instance whose only routing tag has white space in front
+of the prefix lost all its checks here although `routecmd.build` would have emitted its route. -/
+def hasTagPrefix (pfx : Str) (c : Check) : Bool := c.tags.any (fun t => pfx.isPrefixOf (Fabio.Model.Parse.trimSpace t))
+
+/-- the test of the code before the repair of D27 (the tag as it stands) -/
+def hasTagPrefixRaw (pfx : Str) (c : Check) : Bool := c.tags.any (fun t => pfx.isPrefixOf t)
 
 /-- `checksWithTagPrefix(prefix, checks)`: each check is appended at most once (`continue` / `break`). -/
 def checksWithTagPrefix (pfx : Str) (cs : List Check) : List Check :=
